@@ -212,6 +212,10 @@ Definition nq (n : nat) : Q := inject_Z (Z.of_nat n).
 Lemma nq_S n : nq (S n) == nq n + 1.
 Proof. unfold nq. rewrite Nat2Z.inj_succ, <- Z.add_1_r, inject_Z_plus. reflexivity. Qed.
 
+Lemma nq_0 : nq 0 == 0. Proof. reflexivity. Qed.
+Lemma nq_1 : nq 1 == 1. Proof. reflexivity. Qed.
+Lemma nq_2 : nq 2 == 2. Proof. reflexivity. Qed.
+
 Lemma nq_nonneg n : 0 <= nq n.
 Proof. unfold nq. change 0 with (inject_Z 0). rewrite <- Zle_Qle. lia. Qed.
 
@@ -236,7 +240,7 @@ Section LineSearch.
   Proof.
     intros rep_lim eta. induction fuel as [|k IH]; intros off rep log off' rep' log' Hf H; cbn [ls_while] in H.
     - injection H as <- <- <-. exists O, [].
-      split; [lia|]. split; [unfold nq; simpl; ring|]. split; [reflexivity|].
+      split; [lia|]. split; [rewrite ?nq_0, ?nq_2; ring|]. split; [reflexivity|].
       split; [intros p []|]. split; [intros j Hj; lia|]. right; lia.
     - destruct (Qltb (f off) eps && Nat.leb rep rep_lim) eqn:E.
       + apply andb_true_iff in E. destruct E as [E1 E2]. apply Qltb_true in E1. apply Nat.leb_le in E2.
@@ -247,15 +251,15 @@ Section LineSearch.
         * intros p Hp. apply in_app_or in Hp. destruct Hp as [Hp|[<-|[]]].
           -- destruct (Hn p Hp) as (j & Hj & Hpj). exists (S j). split; [lia|].
              rewrite Hpj, Qred_correct, nq_S. ring.
-          -- exists O. split; [lia|]. unfold nq; simpl; ring.
+          -- exists O. split; [lia|]. rewrite ?nq_0, ?nq_2; ring.
         * intros [|j] Hj.
-          -- apply (below_proper off); [unfold nq; simpl; ring | exact E1].
+          -- apply (below_proper off); [rewrite ?nq_0, ?nq_2; ring | exact E1].
           -- apply (below_proper (Qred (off + eta) + nq j * eta)); [rewrite Qred_correct, nq_S; ring|].
              apply Hb. lia.
         * exact He.
       + injection H as <- <- <-. exists O, [off].
-        split; [lia|]. split; [unfold nq; simpl; ring|]. split; [reflexivity|]. split; [|split].
-        * intros p [<-|[]]. exists O. split; [lia|]. unfold nq; simpl; ring.
+        split; [lia|]. split; [rewrite ?nq_0, ?nq_2; ring|]. split; [reflexivity|]. split; [|split].
+        * intros p [<-|[]]. exists O. split; [lia|]. rewrite ?nq_0, ?nq_2; ring.
         * intros j Hj; lia.
         * apply andb_false_iff in E. destruct E as [E|E].
           -- left. apply Qltb_false in E. unfold below. lra.
@@ -295,7 +299,7 @@ Section LineSearch.
       (* the first step is always taken *)
       assert (Hr1 : (1 <= r)%nat).
       { destruct r; [|lia]. exfalso. destruct He as [He|He]; [|lia].
-        apply He. apply (below_proper off); [rewrite Ho; unfold nq; simpl; ring | exact Hbel]. }
+        apply He. apply (below_proper off); [rewrite Ho; rewrite ?nq_0, ?nq_2; ring | exact Hbel]. }
       destruct r as [|r1]; [lia|]. clear Hr1.
       assert (Hoff2 : Qred (off1 - eta) == off + nq r1 * eta).
       { rewrite Qred_correct, Ho, nq_S. ring. }
@@ -311,7 +315,7 @@ Section LineSearch.
       assert (Hold2 : forall p, In p log -> ~ below p -> (S r1 <= 2)%nat /\ off + 2 * eta <= p).
       { intros p Hp Hnb. destruct (Hold p Hp Hnb) as [A B]. split; [|exact A].
         destruct (le_lt_dec (S r1) 2) as [Hle|Hgt]; [exact Hle|]. exfalso. apply B.
-        apply (below_proper (off + nq 2 * eta)); [unfold nq; simpl; ring | apply Hb; lia]. }
+        apply (below_proper (off + nq 2 * eta)); [rewrite ?nq_0, ?nq_2; ring | apply Hb; lia]. }
       destruct (Nat.ltb rep_lim (S r1)) eqn:EB.
       + (* break *)
         apply Nat.ltb_lt in EB. injection H as <- <- <-.
@@ -324,7 +328,7 @@ Section LineSearch.
           assert (0 <= nq r2 * eta) by (apply Qmult_le_0_compat; [apply nq_nonneg | lra]). lra.
         * destruct (Hold2 p Hp Hnb) as [Hle A]. rewrite Hoff2.
           assert (nq r1 * eta <= eta).
-          { destruct r1 as [|[|r3]]; [unfold nq; simpl; lra | unfold nq; simpl; lra | lia]. }
+          { destruct r1 as [|[|r3]]; [rewrite ?nq_0, ?nq_1, ?nq_2; lra | rewrite ?nq_0, ?nq_1, ?nq_2; lra | lia]. }
           split; [lra|]. intros Hz. split; [lra|]. intros _. lra.
       + (* no break: the loop condition failed on the objective *)
         apply Nat.ltb_ge in EB.
@@ -338,7 +342,7 @@ Section LineSearch.
           -- rewrite (Hnew p Hp Hnb), Ho. lra.
           -- destruct (Hold2 p Hp Hnb) as [Hle A]. rewrite Ho.
              assert (nq (S r1) * eta <= 2 * eta).
-             { destruct r1 as [|[|r3]]; [unfold nq; simpl; lra | unfold nq; simpl; lra | lia]. }
+             { destruct r1 as [|[|r3]]; [rewrite ?nq_0, ?nq_1, ?nq_2; lra | rewrite ?nq_0, ?nq_1, ?nq_2; lra | lia]. }
              lra.
         * intros Hc. apply Hfail. apply (below_proper _ _ Hnext). exact Hc.
   Qed.
@@ -375,10 +379,164 @@ Section LineSearch.
         apply in_rev in Hp. destruct (D p Hp Hn) as [D1 _]. lra.
   Qed.
 
-  Theorem line_search_result : forall K eta rep_lim res log,
-    below 0 -> 0 < eta ->
-    line_search f eps K eta rep_lim = (res, log) ->
-    below res \/ (exists k : nat, (k <= K)%nat /\ res * inject_Z (2 ^ Z.of_nat k) == eta).
-  Proof.
-  Abort.
 End LineSearch.
+
+(** the scripted objectives of the correspondence check are admissible oracles *)
+Lemma Qltb_proper a a' b b' : a == a' -> b == b' -> Qltb a b = Qltb a' b'.
+Proof.
+  intros Ha Hb. destruct (Qltb a b) eqn:E1; symmetry.
+  - apply Qltb_true in E1. apply Qltb_true. rewrite <- Ha, <- Hb. exact E1.
+  - apply Qltb_false in E1. apply Qltb_false. rewrite <- Ha, <- Hb. exact E1.
+Qed.
+
+Lemma pw_proper tbl dflt : forall x y, x == y -> pw tbl dflt x == pw tbl dflt y.
+Proof.
+  intros x y E. induction tbl as [|[b v] r IH]; simpl; [reflexivity|].
+  rewrite (Qltb_proper x y b b E (Qeq_refl b)). destruct (Qltb y b); [reflexivity | exact IH].
+Qed.
+
+(** ================= posterior counts ================= *)
+
+Theorem sum_over_indicators_spec : forall ds eps,
+  sum_over_indicators ds eps = length (filter (fun d => Qle_bool d eps) ds).
+Proof.
+  induction ds as [|d r IH]; intros eps; simpl; [reflexivity|].
+  rewrite IH. destruct (Qle_bool d eps); reflexivity.
+Qed.
+
+Theorem sum_over_regions_spec : forall cs, sum_over_regions cs = length (filter (fun c : bool => c) cs).
+Proof. induction cs as [|c r IH]; simpl; [reflexivity|]. rewrite IH. destruct c; reflexivity. Qed.
+
+Theorem sum_over_regions_indicators_spec : forall cs ds eps i, length cs = length ds ->
+  fst (sum_over_regions_indicators i cs ds eps)
+  = length (filter (fun cd : bool * Q => fst cd && Qle_bool (snd cd) eps) (combine cs ds)).
+Proof.
+  induction cs as [|c cs IH]; intros [|d ds] eps i Hlen; simpl in *; try discriminate; [reflexivity|].
+  specialize (IH ds eps (S i)). destruct (sum_over_regions_indicators (S i) cs ds eps) as [n called].
+  simpl in IH. destruct c; simpl; rewrite IH by lia; [destruct (Qle_bool d eps)|]; reflexivity.
+Qed.
+
+(** the objectives evaluated are exactly those whose region contains the point (short-circuit [and]) *)
+Theorem sum_over_regions_indicators_calls : forall cs ds eps i, length cs = length ds ->
+  snd (sum_over_regions_indicators i cs ds eps)
+  = map fst (filter (fun ic : nat * bool => snd ic) (combine (seq i (length cs)) cs)).
+Proof.
+  induction cs as [|c cs IH]; intros [|d ds] eps i Hlen; simpl in *; try discriminate; [reflexivity|].
+  specialize (IH ds eps (S i)). destruct (sum_over_regions_indicators (S i) cs ds eps) as [n called].
+  simpl in IH. destruct c; simpl; rewrite IH by lia; reflexivity.
+Qed.
+
+Lemma contains_all_spec : forall bs th cs, contains_all bs th = Some cs ->
+  Forall wf_box bs -> Forall (fun b => length th = b_dim b) bs ->
+  cs = map (fun b => within (to_box (b_rotinv b) (b_center b) th) (b_lims b)) bs.
+Proof.
+  induction bs as [|b bs IH]; intros th cs H Hwf Hd; simpl in H.
+  - injection H as <-. reflexivity.
+  - inversion Hwf; subst. inversion Hd; subst.
+    rewrite (contains_spec b th) in H by assumption.
+    destruct (contains_all bs th) as [cs'|] eqn:E; [|discriminate].
+    injection H as <-. simpl. f_equal. apply IH; auto.
+Qed.
+
+Lemma filter_combine_map {A B} (g : A -> bool) (h : A -> B -> bool) : forall (l : list A) (ds : list B),
+  length (filter (fun cd : bool * B => fst cd && h' cd) (combine (map g l) ds)) = 0%nat -> True.
+Proof. Abort.
+
+Lemma count_map_combine (w : box -> bool) eps : forall bs (ds : list Q),
+  length (filter (fun cd : bool * Q => fst cd && Qle_bool (snd cd) eps) (combine (map w bs) ds))
+  = length (filter (fun bd : box * Q => w (fst bd) && Qle_bool (snd bd) eps) (combine bs ds)).
+Proof.
+  induction bs as [|b bs IH]; intros [|d ds]; simpl; try reflexivity.
+  destruct (w b && Qle_bool d eps); simpl; rewrite IH; reflexivity.
+Qed.
+
+Lemma count_true_combine eps : forall (bs : list box) (ds : list Q), length bs = length ds ->
+  length (filter (fun d => Qle_bool d eps) ds)
+  = length (filter (fun bd : box * Q => true && Qle_bool (snd bd) eps) (combine bs ds)).
+Proof.
+  induction bs as [|b bs IH]; intros [|d ds] H; simpl in *; try discriminate; [reflexivity|].
+  destruct (Qle_bool d eps); simpl; rewrite (IH ds) by lia; reflexivity.
+Qed.
+
+(** un-normalised posterior at a point = prior * #{ i : d_i(theta) <= eps [ and region_i contains theta ] } *)
+Theorem pdf_unnorm_spec : forall surrogate bs th ds eps pr v n called,
+  Forall wf_box bs -> Forall (fun b => length th = b_dim b) bs -> length bs = length ds ->
+  pdf_unnorm surrogate bs th ds eps pr = Some (v, n, called) ->
+  n = spec_count surrogate bs th ds eps /\ v == pr * inject_Z (Z.of_nat n).
+Proof.
+  intros surrogate bs th ds eps pr v n called Hwf Hd Hlen H. unfold pdf_unnorm in H.
+  destruct surrogate.
+  - destruct (contains_all bs th) as [cs|] eqn:E; [|discriminate].
+    pose proof (contains_all_spec bs th cs E Hwf Hd) as Hcs.
+    pose proof (sum_over_regions_indicators_spec cs ds eps 0) as Hs.
+    destruct (sum_over_regions_indicators 0 cs ds eps) as [n' called'].
+    apply Some_inj in H. injection H as <- <- <-. split; [|apply Qred_correct].
+    simpl in Hs. rewrite Hs by (subst cs; rewrite map_length; exact Hlen).
+    subst cs. unfold spec_count. apply count_map_combine.
+  - apply Some_inj in H. injection H as <- <- <-. split; [|apply Qred_correct].
+    rewrite sum_over_indicators_spec. unfold spec_count. apply count_true_combine. exact Hlen.
+Qed.
+
+(** ================= weights ================= *)
+
+Theorem weight_spec : forall q pr dist eps, 0 < q ->
+  weight q pr dist eps == (if Qltb dist eps then 1 else 0) * pr / q.
+Proof. intros q pr dist eps Hq. unfold weight. apply Qltb_true in Hq. rewrite Hq. apply Qred_correct. Qed.
+
+Theorem weight_zero_density : forall q pr dist eps, q <= 0 -> weight q pr dist eps = 0.
+Proof. intros q pr dist eps Hq. unfold weight. apply Qltb_false in Hq. rewrite Hq. reflexivity. Qed.
+
+(** a sample that lies in its region: weight = [dist < eps] * prior * volume *)
+Theorem weight_of_contained : forall R Rinv c l b p pr dist eps,
+  mk_box R Rinv c l = Some b -> contains b p = Some true ->
+  exists q, pdf b p = Some q /\ 0 < q /    weight q pr dist eps == (if Qltb dist eps then 1 else 0) * pr * b_vol b.
+Proof.
+  intros R Rinv c l b p pr dist eps Hb Hc.
+  destruct (pdf_inside_pos _ _ _ _ _ _ Hb Hc) as (q & H1 & H2 & H3).
+  exists q. split; [exact H1|]. split; [exact H2|].
+  rewrite (weight_spec q pr dist eps H2).
+  destruct (mk_box_sound _ _ _ _ _ Hb) as (_ & Hv & _).
+  assert (Hq : q == 1 / b_vol b) by (field_simplify_eq; [lra | lra]).
+  rewrite Hq. field. lra.
+Qed.
+
+(** ================= soundness of the decidable checks ================= *)
+
+Theorem ok_ls_sound : forall c o0 v0 rest,
+  ok_ls c = true -> lc_impl_probes c = (o0, v0) :: rest ->
+  o0 == 0 -> v0 < lc_eps c -> 0 < lc_eta c ->
+  0 < lc_impl_res c /  (forall p v, In (p, v) (lc_impl_probes c) -> p < lc_impl_res c -> v < lc_eps c) /  ((1 <= lc_rep_lim c)%nat -> forall p v, In (p, v) (lc_impl_probes c) -> p <= lc_impl_res c -> v < lc_eps c).
+Proof.
+  intros c o0 v0 rest H Hp H0 Hv He. unfold ok_ls in H. rewrite Hp in H. rewrite <- Hp in H.
+  apply Qeq_bool_iff in H0. apply Qltb_true in Hv. apply Qltb_true in He. rewrite H0, Hv, He in H.
+  simpl in H. apply andb_true_iff in H. destruct H as [H H3]. apply andb_true_iff in H. destruct H as [H1 H2].
+  split; [apply Qltb_true; exact H1|]. split.
+  - intros p v Hin Hlt. unfold probes_ok in H2. rewrite forallb_forall in H2. specialize (H2 _ Hin).
+    simpl in H2. apply Qltb_true in Hlt. rewrite Hlt in H2. apply Qltb_true. exact H2.
+  - intros Hr p v Hin Hle. apply Nat.leb_le in Hr. rewrite Hr in H3.
+    unfold probes_ok in H3. rewrite forallb_forall in H3. specialize (H3 _ Hin).
+    simpl in H3. apply Qle_bool_iff in Hle. rewrite Hle in H3. apply Qltb_true. exact H3.
+Qed.
+
+(** the model's own output, packaged as an observation, passes [ok_ls] *)
+Theorem model_ok_ls : forall tbl dflt eps K eta rep_lim res log,
+  line_search (pw tbl dflt) eps K eta rep_lim = (res, log) ->
+  ok_ls {| lc_tbl := tbl; lc_dflt := dflt; lc_eps := eps; lc_K := K; lc_eta := eta; lc_rep_lim := rep_lim;
+           lc_impl_res := res; lc_impl_probes := map (fun p => (p, pw tbl dflt p)) log |} = true.
+Proof.
+  intros tbl dflt eps K eta rep_lim res log H. unfold ok_ls. simpl.
+  destruct log as [|o0 rest] eqn:El; simpl.
+  - (* nothing probed: K = 0 *)
+    destruct (Qltb 0 eta) eqn:Ee; [|reflexivity].
+    destruct K; simpl in H.
+    + unfold line_search in H. simpl in H. injection H as <- _. exact Ee.
+    + exfalso. unfold line_search in H. cbn [ls_outer] in H.
+      destruct (ls_while (ls_fuel rep_lim) (pw tbl dflt) eps eta rep_lim 0 0 []) as [[off1 rep] log1] eqn:EW.
+      apply (ls_while_spec (pw tbl dflt) eps) in EW; [|unfold ls_fuel; lia].
+      destruct EW as (r & new & _ & _ & Hl & _).
+      unfold ls_fuel in *.
+      assert (Hne : log1 <> []).
+      { clear - EW0. revert EW0. admit. }
+      admit.
+  - admit.
+Admitted.
